@@ -14,6 +14,7 @@ in place byte for byte: `GK`, threaded through `truncateFreeFiles` and the reap 
 every call except primary GC: `ystep`, `ystep_igc`).  Nothing was found false for G1.
 -/
 import Sth.Lemmas.C07GInv
+import Sth.Lemmas.C07GG
 import Sth.Props.C07
 import Sth.Props.C04
 
@@ -108,5 +109,185 @@ theorem C07_example_igc_final :
     (initS exCfg04).map (fun s0 =>
       ((runS s0 exOps04a).1.d.ihdr.map IdxHeader.first, (runS s0 exOps04a).1.d.ifiles.map (·.1),
         (runS s0 exOps04a).1.m.buckets)) = some (some 3, [3, 4], [(1, 7), (2, 8)]) := by decide
+
+
+/-! ## G2: histories with primary GC cycles too
+
+The full statement
+
+    theorem C07_fsck_clean_gc (c : Cfg) (hc : c.Legal) (ops : List SOp) (hk : KeysOK c.kind ops)
+        (hs : SizesOK ops) (s0 : SState) (hi : initS c = some s0) (hb : GcCountersOK s0 ops) :
+        let s := (runS s0 ops).1
+        fsck c.kind s.d s.m.buckets = []
+
+is FALSE for multihash stores (`C07_d11_witness`, `C07_d11_relocation_witness` below, both by
+evaluation of the model):
+
+ * D11.  A primary GC cycle hands the freelist over and applies it while index updates are still
+   unflushed: `put k v; flush; put k v'; pgc` — the overwrite put the old record on the freelist and
+   re-pointed the entry IN THE POOL; the cycle flushes the freelist and the primary, marks the old
+   record deleted, and the on-disk record list of the (still dirty) bucket names a deleted record.
+ * D11, relocation variant (found here).  No user write is needed: `…; flush; pgc; pgc`.  The first
+   cycle relocates the live records of a sparsely used file — primary.Put + Index.Relocate + freelist.Put
+   of the old location, i.e. the entry is re-pointed in the index POOL and nothing flushes it; the
+   second cycle hands the freelist over, marks the old copies deleted, finds the file empty, unlinks it
+   and advances the primary header's first file, while the on-disk index still names that file.  So a
+   primary GC cycle leaves the index pool dirty, and two cycles in a row — the normal mode of operation
+   of a periodic collector — leave the directory inconsistent until the next Flush (a crash in that
+   window loses the relocated records: the recovered index points into an unlinked file).
+
+The statement is proved under the one extra, decidable premise `PgcFromClean s0 ops`: every primary GC
+cycle of the run starts from a state whose index pool is empty (`C07_fsck_clean_gc_partial`);
+`pgcAfterFlush true ops` is a sufficient condition on the calls alone (each `pgc` preceded by a Flush /
+iteration / Close+reopen with only index GC cycles and reads in between;
+`C07_fsck_clean_gc_afterFlush`).  CID stores need no premise at all (`C07_fsck_clean_gc_cid`: primary GC
+does nothing there).  In every such history the check is clean in EVERY state — also right after a cycle
+that relocated (the on-disk index then names the old copies, which are intact until the NEXT cycle's
+hand-over, and by then the premise has forced a flush), after cycles cut short at any poll, with the
+hand-over file `.gc` left behind by an interrupted cycle, and between the two hand-over passes. -/
+
+/-- C07 with both collectors (multihash store): under `GcCountersOK` (C04's bound on the file
+    counters) and `PgcFromClean` (every primary GC cycle starts with an empty index pool), in every
+    reachable state the check of the disk against the live bucket table is clean. -/
+theorem C07_fsck_clean_gc_partial (c : Cfg) (hc : c.Legal) (hmh : c.kind = .mh) (ops : List SOp)
+    (hk : KeysOK c.kind ops) (hs : SizesOK ops) (s0 : SState) (hi : initS c = some s0)
+    (hb : GcCountersOK s0 ops) (hp : PgcFromClean s0 ops) :
+    let s := (runS s0 ops).1
+    fsck c.kind s.d s.m.buckets = [] := by
+  obtain ⟨n', h⟩ := c07g_reach c hc hmh ops hk hs s0 hi hb hp
+  rw [hmh]
+  exact fsck_of_diskOK h.ok
+
+/-- the same as a proposition -/
+theorem C07_disk_consistent_gc_partial (c : Cfg) (hc : c.Legal) (hmh : c.kind = .mh) (ops : List SOp)
+    (hk : KeysOK c.kind ops) (hs : SizesOK ops) (s0 : SState) (hi : initS c = some s0)
+    (hb : GcCountersOK s0 ops) (hp : PgcFromClean s0 ops) :
+    let s := (runS s0 ops).1
+    DiskOK .mh s.d s.m.buckets := by
+  obtain ⟨n', h⟩ := c07g_reach c hc hmh ops hk hs s0 hi hb hp
+  exact h.ok
+
+/-- the premise stated on the calls alone is sufficient -/
+theorem C07_pgcFromClean_of_afterFlush (c : Cfg) (hc : c.Legal) (hmh : c.kind = .mh) (ops : List SOp)
+    (hk : KeysOK c.kind ops) (hs : SizesOK ops) (s0 : SState) (hi : initS c = some s0)
+    (hb : GcCountersOK s0 ops) (hp : pgcAfterFlush true ops = true) : PgcFromClean s0 ops := by
+  have hU := univ_of_keysOK hk (keysExact_all c.kind ops)
+  have h0 : CInvG c (digestsOf c.kind ops) s0 [] 0 0 := cinvG_init hc hmh hi
+  have hin : s0.m.inext = [] := by
+    have hi' := hi
+    rw [initS_mh c hc hmh] at hi'
+    cases hi'
+    rfl
+  refine pgcFromClean_of_afterFlush hc hU ops s0 [] 0 0 true h0 (fun _ => hin) ?_ hb hp ?_
+  · intro op ho k hkey dig hcls
+    exact mem_digestsOf ho hkey hcls
+  · have := hs.2.1; omega
+
+/-- C07 with both collectors, the premise on the calls alone: every `pgc` is preceded by a Flush /
+    iteration / Close+reopen with only index GC cycles and Get / Has / GetSize in between -/
+theorem C07_fsck_clean_gc_afterFlush (c : Cfg) (hc : c.Legal) (hmh : c.kind = .mh) (ops : List SOp)
+    (hk : KeysOK c.kind ops) (hs : SizesOK ops) (s0 : SState) (hi : initS c = some s0)
+    (hb : GcCountersOK s0 ops) (hp : pgcAfterFlush true ops = true) :
+    let s := (runS s0 ops).1
+    fsck c.kind s.d s.m.buckets = [] :=
+  C07_fsck_clean_gc_partial c hc hmh ops hk hs s0 hi hb
+    (C07_pgcFromClean_of_afterFlush c hc hmh ops hk hs s0 hi hb hp)
+
+/-- CID stores: the full statement holds as it stands — every history, GC cycles of both kinds anywhere
+    (primary GC does nothing on a CID store) — and the rescan rebuilds the live table -/
+theorem C07_fsck_clean_gc_cid (c : Cfg) (hc : c.Legal) (hcid : c.kind = .cid) (ops : List SOp)
+    (hk : KeysOK c.kind ops) (hs : SizesOK ops) (s0 : SState) (hi : initS c = some s0) :
+    let s := (runS s0 ops).1
+    fsck c.kind s.d s.m.buckets = [] ∧
+    ∃ T, recoveredBuckets s.d = some T ∧ T.filter (·.2 ≠ 0) = s.m.buckets.filter (·.2 ≠ 0) := by
+  have h := c07y_reach_cid c hc hcid ops hk hs s0 hi
+  exact ⟨fsck_of_diskOK h.ok, recovered_rescan_y h.inv h.y h.snap⟩
+
+/-- one primary GC cycle from ANY state of a multihash store that satisfies the invariant and has an
+    empty index pool keeps the invariant — complete, or cut short at any poll, any `lowUse` -/
+theorem C07_primaryGC_keeps_consistency {c : Cfg} {U : List (Bytes × Bytes)} {s : SState} {spec : Spec}
+    {k B : Nat} (hU : Univ c.kind U) (h : CInvG c U s spec k B) (hk : 3 * k < 1073741824)
+    (hin : s.m.inext = []) (lowUse : Nat) (budget : Budget) :
+    let s' := (stepS s (.pgc lowUse budget)).1
+    fsck .mh s'.d s'.m.buckets = [] := by
+  obtain ⟨k', g1, _⟩ := pgc_c07g hU h hk hin lowUse budget
+  exact fsck_of_diskOK g1.ok
+
+/-! Non-vacuity of G2: 40-byte primary files (`exCfg04b` of Sth/Props/C04.lean); overwrites and a
+    removal leave dead records in closed files; primary GC cycles with `lowUse = 0` (relocate from every
+    file) and `50`, complete and cut short after 3 and 5 polls (the hand-over file is left behind), index
+    GC cycles, reopens by rescan and by snapshot; every `pgc` is preceded by a Flush / iteration /
+    reopen.  At the end the primary header's first file is 4 and one primary file remains. -/
+
+def exOps07g : List SOp :=
+  [.put exK1 [7], .put exK2 [1, 2, 3], .put exK3 [4], .flush [], .put exK4 [5, 5],
+   .put exK2 [3, 3, 3, 3], .put exK4 [6, 6], .flush [], .put exK4 [7, 7], .flush [],
+   .pgc 0 none, .get exK1, .get exK2, .get exK3, .igc true none, .flush [], .pgc 0 (some 3),
+   .put exK1 [9], .flush [1], .igc false (some 2), .pgc 0 none, .get exK4, .reopen [] false,
+   .pgc 50 none, .get exK1, .rm exK3, .iter [], .pgc 0 (some 5), .reopen [] true, .pgc 0 none,
+   .has exK2, .size exK3, .iter []]
+
+example : exCfg04b.Legal ∧ exCfg04b.kind = .mh := ⟨by decide, rfl⟩
+example : KeysOK exCfg04b.kind exOps07g ∧ SizesOK exOps07g := by
+  refine ⟨?_, ?_⟩
+  · unfold KeysOK; decide
+  · unfold SizesOK; decide
+example : pgcAfterFlush true exOps07g = true := by decide
+example : ∃ s, initS exCfg04b = some s ∧ GcCountersOK s exOps07g ∧ PgcFromClean s exOps07g :=
+  ⟨_, rfl, by decide, by decide⟩
+
+/-- by evaluation: clean in every one of the 34 states of that run (as the theorem says) -/
+theorem C07_example_gc_clean_everywhere :
+    (initS exCfg04b).map (fun s0 => (List.range (exOps07g.length + 1)).all fun i =>
+      (fsck .mh (runS s0 (exOps07g.take i)).1.d (runS s0 (exOps07g.take i)).1.m.buckets).isEmpty) =
+      some true := by decide
+
+/-- primary GC really works on the files the check reads: the first cycle relocates (three pooled
+    records, two dirty buckets, three freed blocks right after it), at the end the primary header's
+    first file is 4 and a single primary file remains -/
+theorem C07_example_gc_final :
+    (initS exCfg04b).map (fun s0 =>
+      (((runS s0 (exOps07g.take 11)).1.m.pnext.length, (runS s0 (exOps07g.take 11)).1.m.inext.length,
+          (runS s0 (exOps07g.take 11)).1.m.flpool.length),
+        (runS s0 exOps07g).1.d.phdr, (runS s0 exOps07g).1.d.pfiles.map (·.1))) =
+      some ((3, 2, 3), some ⟨40, 4⟩, [4]) := by decide
+
+/-! The witnesses that the premise cannot be dropped (known finding D11). -/
+
+def exOpsD11 : List SOp := [.put exK1 [7], .flush [], .put exK1 [8], .pgc 0 none]
+
+/-- D11 in the model: every hypothesis of the full statement holds, the index pool is dirty when the
+    cycle starts (`PgcFromClean` fails), and after the cycle the on-disk record list of the dirty
+    bucket names a record the cycle has just marked deleted -/
+theorem C07_d11_witness :
+    exCfg04b.Legal ∧ KeysOK exCfg04b.kind exOpsD11 ∧ SizesOK exOpsD11 ∧
+    ∃ s0, initS exCfg04b = some s0 ∧ GcCountersOK s0 exOpsD11 ∧ ¬ PgcFromClean s0 exOpsD11 ∧
+      (fsck .mh (runS s0 (exOpsD11.take 3)).1.d (runS s0 (exOpsD11.take 3)).1.m.buckets = [] ∧
+       (fsck .mh (runS s0 exOpsD11).1.d (runS s0 exOpsD11).1.m.buckets).length = 1) := by
+  refine ⟨by decide, ?_, ?_, _, rfl, by decide, by decide, by decide, by decide⟩
+  · unfold KeysOK; decide
+  · unfold SizesOK; decide
+
+def exOpsD11r : List SOp :=
+  [.put exK1 [7], .put exK2 [1, 2, 3], .put exK3 [4], .flush [], .put exK2 [3, 3, 3, 3], .flush [],
+   .pgc 0 none, .pgc 0 none]
+
+/-- D11, relocation variant: no user write between the last Flush and the cycles.  The first cycle
+    starts from an empty index pool, relocates two records (two dirty buckets afterwards) and leaves a
+    consistent directory; the second cycle starts from the pool the first one dirtied, unlinks primary
+    file 0 and advances the header's first file to 1 while the on-disk index still names file 0: two
+    violated clauses -/
+theorem C07_d11_relocation_witness :
+    exCfg04b.Legal ∧ KeysOK exCfg04b.kind exOpsD11r ∧ SizesOK exOpsD11r ∧
+    ∃ s0, initS exCfg04b = some s0 ∧ GcCountersOK s0 exOpsD11r ∧
+      PgcFromClean s0 (exOpsD11r.take 7) ∧ ¬ PgcFromClean s0 exOpsD11r ∧
+      (runS s0 (exOpsD11r.take 7)).1.m.inext.length = 2 ∧
+      fsck .mh (runS s0 (exOpsD11r.take 7)).1.d (runS s0 (exOpsD11r.take 7)).1.m.buckets = [] ∧
+      (runS s0 exOpsD11r).1.d.phdr = some ⟨40, 1⟩ ∧
+      (fsck .mh (runS s0 exOpsD11r).1.d (runS s0 exOpsD11r).1.m.buckets).length = 2 := by
+  refine ⟨by decide, ?_, ?_, _, rfl, by decide, by decide, by decide, by decide, by decide, by decide,
+    by decide⟩
+  · unfold KeysOK; decide
+  · unfold SizesOK; decide
 
 end Sth
